@@ -207,68 +207,4 @@ theorem exact_run_nonvol (c : Cfg) (s : St) (hv : c.volatile = false) (hs : c.st
   | cons e r ih => exact ih _ (exact_step_nonvol c s hv hs e x)
 
 
-/-- what a full file-level pass (cache built afresh) leaves on disk is referenced by a live argument -/
-theorem vdrKillSome_leaves_referenced (c : Cfg) (s : St) (done : Bool) (hc : s.cache = none) :
-    ∀ d ∈ (vdrKillSome c s done).disk, isTmp d.kind = false →
-      ∃ a, a ∈ s.dom ∧ refs c a d.path = true := by
-  have hentry : ∀ d ∈ s.disk, isTmp d.kind = false →
-      ({ path := d.path
-         args := (s.dom.filter fun a => !(c.filesOf a).isEmpty).filter (fun a => refs c a d.path)
-         size := d.size, count := 1 } : Entry) ∈ cacheEntries c s := by
-    intro d hd ht
-    unfold cacheEntries
-    simp only [List.mem_map, List.mem_filter]
-    exact ⟨d, ⟨hd, by simp [ht]⟩, rfl⟩
-  have hwit : ∀ d : DiskEnt,
-      ((s.dom.filter fun a => !(c.filesOf a).isEmpty).filter (fun a => refs c a d.path)).isEmpty = false →
-      ∃ a, a ∈ s.dom ∧ refs c a d.path = true := by
-    intro d hne
-    rw [List.isEmpty_eq_false_iff_exists_mem] at hne
-    obtain ⟨a, ha⟩ := hne
-    simp only [List.mem_filter] at ha
-    exact ⟨a, ha.1.1, ha.2⟩
-  have hn : normCache c s = cacheMap c s := by unfold normCache; rw [hc]
-  have hcache : (cacheMap c s).cache = some (cacheEntries c s) := rfl
-  intro d hd ht
-  unfold vdrKillSome at hd
-  dsimp only at hd
-  rw [hn, hcache] at hd
-  simp only [Option.getD_some] at hd
-  split at hd
-  · rename_i hempty
-    have hd' : d ∈ s.disk := by
-      split at hd
-      · exact cacheMap_disk c s ▸ hd
-      · exact cacheMap_disk c s ▸ hd
-    apply hwit d
-    cases hx : ((s.dom.filter fun a => !(c.filesOf a).isEmpty).filter (fun a => refs c a d.path)).isEmpty with
-    | false => rfl
-    | true =>
-      exfalso
-      have hm := hentry d hd' ht
-      have : ({ path := d.path
-                args := (s.dom.filter fun a => !(c.filesOf a).isEmpty).filter (fun a => refs c a d.path)
-                size := d.size, count := 1 } : Entry) ∈ (cacheEntries c s).filter (fun e => e.args.isEmpty) :=
-        List.mem_filter.mpr ⟨hm, hx⟩
-      rw [List.isEmpty_iff] at hempty
-      rw [hempty] at this
-      cases this
-  · have hd2 : d ∈ (killCore (cacheMap c s) (cacheEntries c s)).disk := by
-      split at hd
-      · exact hd
-      · exact hd
-    unfold killCore at hd2
-    simp only [List.mem_filter] at hd2
-    obtain ⟨hd', hnot⟩ := hd2
-    rw [cacheMap_disk] at hd'
-    apply hwit d
-    cases hx : ((s.dom.filter fun a => !(c.filesOf a).isEmpty).filter (fun a => refs c a d.path)).isEmpty with
-    | false => rfl
-    | true =>
-      exfalso
-      have hm := hentry d hd' ht
-      simp only [Bool.not_eq_true', List.any_eq_false, List.mem_map, List.mem_filter] at hnot
-      have := hnot d.path ⟨_, ⟨hm, hx⟩, rfl⟩
-      simp [pathIsInside] at this
-
 end Martian.Vdr
